@@ -391,6 +391,12 @@ func RecordFieldSources(a *ssa.Alloc, field int) (vals []ssa.Value, ok bool) {
 	var rec func(a *ssa.Alloc)
 	whole = func(v ssa.Value) {
 		switch x := v.(type) {
+		case *ssa.Const:
+			// a constant of a struct type is the zero value (`T{}` before the fields of a composite literal are
+			// stored one by one): like the zero value of a fresh record it is not listed
+			if _, isSt := x.Type().Underlying().(*types.Struct); isSt {
+				return
+			}
 		case *ssa.UnOp:
 			if a2, isA := x.X.(*ssa.Alloc); isA && x.Op == token.MUL {
 				rec(a2)
